@@ -1,4 +1,4 @@
-#include <stddef.h>
+#include "contracts/unicode.h"
+struct verif_utf8_ghost g_u;
 const unsigned char *g_u_src;
-size_t g_u_len, g_u_calls, g_u_count;
-unsigned g_u_state;
+size_t g_u_len;
